@@ -59,6 +59,12 @@ def run(ck):
         h = [max(v, 0.01) for v in h]
         configs.append(dict(iters=iters, scores=h, minimize=bool(rr.integers(0, 2)), early=bool(rr.integers(0, 2)),
                             mult=float(rr.choice(mults + [1.01, 1.3])), rb=True, arg=iters if k % 7 else None))
+    # near ties: scores that differ by 1e-9 .. 1e-8 relative (below float32 resolution, far above float64 resolution) — a strictly better iterate is strictly better
+    nrr = np.random.default_rng(ck.seed + 3030)
+    for k in range(ck.n(60, 400)):
+        iters = int(nrr.integers(1, 5)); base = float(nrr.choice([0.7, 0.3, 1.25]))
+        h = [base * (1.0 + float(nrr.integers(-3, 4)) * float(nrr.choice([1e-9, 3e-9, 1e-8]))) for _ in range(iters + 1)]
+        configs.append(dict(iters=iters, scores=h, minimize=bool(nrr.integers(0, 2)), early=bool(nrr.integers(0, 2)), mult=float(nrr.choice([1.0, 1.1])), rb=True, arg=iters))
     # a few return_best=False runs (coherence is C02's claim; here only correspondence)
     for k in range(ck.n(60, 300)):
         iters = int(rr.integers(0, 5))
